@@ -45,6 +45,9 @@
   * `close_names_sid`            the last datagram is Close Session for the granted id; the session object ends
                                  de-activated
   * `close_again_sends_nothing`  closing a de-activated session sends nothing
+  * `close_from_live`            from ANY state in which the session is up (after the handshake, after requests, after a
+                                 failed Set Session Privilege Level or request) close sends Close Session for the granted
+                                 id with the next sequence number and the BMC closes
   * `retransmissions_take_next_seq`   ∀ loss patterns with ≤ max_retries losses in a row: the life cycle completes and
                                  ALL in-session datagrams transmitted (retransmissions included) form one chain of
                                  consecutive sequence numbers; the monitor over the wire flags none
@@ -316,6 +319,23 @@ theorem close_names_sid (md5 : List Nat → List Nat) (hmd5 : ∀ x, (md5 x).len
   | [d], _, h10 => exact ⟨d, by rw [h1]; simp [tagAll], h10 d (by simp), h5⟩
   | [], h, _ => simp at h
   | _ :: _ :: _, h, _ => simp at h <;> omega
+
+/-- Whenever the session is up (the BMC has granted it, the console's session object is activated
+with the granted id and in step with the monitor: `Live`) — after the handshake, after any number
+of requests, after a failed Set Session Privilege Level or request — `close_session()` sends
+Close Session for the granted id with the next sequence number(s), and the BMC closes. -/
+theorem close_from_live {σ : Type} (md5 : List Nat → List Nat) (hmd5 : ∀ x, (md5 x).length = 16)
+    (b : BmcCfg) (cfg : Cfg) (conf : Conforming b cfg)
+    (P : σ → List Nat → σ × Option (List Nat)) (π : σ → BmcState) (lostAt : σ → Bool)
+    (rel : Relay md5 b P π lostAt) (s : σ) (c : Client) (a l k : Nat) (hk : k ≤ cfg.maxRetries)
+    (hl : LossRun P lostAt (fun _ => True) k s) (ha : a = 0 ∨ a = 4 ∨ a = 2)
+    (live : Live b cfg a (some l) (π s) c) :
+    ∃ ds, ds.length = k + 1 ∧ Chain md5 cfg.pw a b.sid l ds ∧ (∀ d ∈ ds, Carries d 60 (leBytes 4 b.sid)) ∧
+      (close md5 P cfg s c).sent = tagAll .close ds ∧ (close md5 P cfg s c).outcome = .ok [] ∧
+      (π (close md5 P cfg s c).peer).phase = .closed ∧ (π (close md5 P cfg s c).peer).bad = (π s).bad ∧
+      (close md5 P cfg s c).client.s.activated = false := by
+  obtain ⟨ds, s', h1, h2, h3, _, h5, h6, h7⟩ := run_close hmd5 conf rel s c a l _ k hk hl ha live
+  exact ⟨ds, h1, h2, h3, by rw [h7], by rw [h7], by rw [h7]; exact h5, by rw [h7]; exact h6, by rw [h7]⟩
 
 /-- a closed session (the state every successful life cycle ends in, see `close_names_sid`) is not
 closed again: a second `close_session()` puts nothing on the wire -/
